@@ -34,7 +34,7 @@ def graft_dead(rng, c):
         if kind == "input":
             g.add_node("ui%d" % k, type="input", output=False)
         elif kind == "const":
-            g.add_node("uk%d" % k, type=rng.choice(["0", "1"]), output=False)
+            g.add_node("uk%d" % k, type=rng.choice(["0", "1", "x"]), output=False)
             if rng.random() < 0.5:
                 g.add_node("ukg%d" % k, type="not", output=False)
                 g.add_edge("uk%d" % k, "ukg%d" % k)
